@@ -100,7 +100,22 @@ claim("C14", "origin taint + control dependence on strategy flags (with two re-v
       "satisfy chromStart=E0-1, chromEnd=Elast, size=e1-e0+1, start=e0-E0, count=len. Block ordering/positivity is not decided.",
       "DESIGN.md 3/C14 (B1-B3)")
 
-for _p in ["C05", "C06", "C07", "C10"]:
+claim("C05", "drop-site inventory with a documented filter vocabulary over guard atoms; sibling agreement; loop-exit and partition checks",
+      "Decides the 'who may drop a read' half: along the whole read path every continue/return/break before a read is forwarded is "
+      "controlled only by documented filter atoms (unmapped, supplementary, secondary policy, MAPQ cut-offs, no exons, multimap "
+      "verdict, None guards) and forwarding is unconditional; genic/intergenic pre-filters agree; every split region is processed "
+      "and the last one flushed; the statistics chain is a partition. Completeness of coverage-valley splitting / per-region "
+      "re-fetch (bin arithmetic) is NOT decided - a known defect there is described in DESIGN.md section 7.",
+      "DESIGN.md 3/C05 (D1-D4)")
+
+claim("C07", "typestate over marker files: derived file-owning classes, dominance of close() over marker creation, invalidate-before-consume, atomic-publish",
+      "Decides the resume protocol structurally: every writer alive in a marker-creating function is explicitly closed before the "
+      "marker (file-owning classes derived from constructors, each with a complete close(), no data written in __del__); markers "
+      "are removed before the artefacts they attest are merged/deleted; exists()-based resume decisions test markers or atomically "
+      "published files; nothing is written after a marker. Byte equality of recomputed outputs is not decided.",
+      "DESIGN.md 3/C07 (R1-R4)")
+
+for _p in ["C06", "C10"]:
     na(_p, NOT_BUILT)
 
 na("C12", "equality of outputs across .gtf/.gtf.gz/.db, --complete_genedb and BAM partitions is determined by what gffutils "
